@@ -1,26 +1,29 @@
 (* C10 - the SRT reader reproduces every cue's time, lines and formatting exactly.
    M = Model/SrtReader.v (transcription of ttconv/srt/reader.py to_model / _TextParser and utils.parse_color, with a
    hand-written stand-in for html.parser), S = Spec/SrtCueSpec.v (abstract cue files: `cues` is what must be
-   read, `print_file` is the concrete syntax, `wf_file` the grammar's side conditions).
+   read, `print_file` is the concrete syntax, `wf_file` the grammar's side conditions) and Spec/SrtWriterOut.v (the
+   texts ttconv's SRT writer emits: `wprint`, and what they say: `wmeaning`).
    `read_cues_file` reads through a text-mode file with universal newlines (as tt.py opens SRT files),
-   `read_cues` through a stream that does not translate newlines (io.StringIO).
+   `read_cues` through a stream that does not translate newlines (io.StringIO, open(newline="")).
 
-   Full statement (false of the faithful model because of the recorded findings, see Findings/C10.v):
-     forall f, wf_file f = true -> read_cues_file (print_file f) = Ok (cues f).
-   Proved below: the statement for every file of the grammar on which none of the three triggers
-   (short brace tags {b} {i} {u}; a closing tag with no opener; the four characters backslash-n-backslash-r)
-   fires - i.e. any number of cues, any counters, leading / separating / trailing blank-line runs, 2- or 3-digit hours,
-   minutes and seconds 00-99, any blanks around the arrow, any tail on the timing line, LF or CR LF terminators, last
-   line with or without terminator, cue text of 1..n non-blank lines made of literal characters, character
-   references (&amp; &lt; &gt; &quot; &nbsp; &#d; &#xh;), b/i/u tags in angle syntax (short, long, upper-case
-   names) and in the long brace syntax, <font color=..> tags (#rrggbb, #rrggbbaa, named colour, either case, double /
-   single / no quotes), nested and adjacent at will, spanning lines or not.
-   For a stream without newline translation the statement is proved for LF files (CR LF there is the fourth
-   recorded finding).
-   Not covered by theorems: the outputs of ttconv's SRT writer as such (they are grammar files: compared on
-   generated documents by harness/c10.py), and inputs outside the grammar (malformed stream: model = code only). *)
-From TT Require Import Base.Prelude Base.SrtTypes Gen.SrtTables Model.SrtReader Spec.SrtCueSpec
-  Proofs.C10.Time Proofs.C10.Brace Proofs.C10.Witness.
+   The property's statement is proved at full strength for the cue grammar:
+     forall f, wf_file f = true -> read_cues_file (print_file f) = Ok (cues f)  /\  read_cues (print_file f) = Ok (cues f)
+   i.e. for any number of cues, any counters, leading / separating / trailing blank-line runs, 2- or 3-digit hours,
+   minutes and seconds 00-99, any blanks around the arrow, any tail on the timing line, LF or CR LF terminators through
+   either kind of stream, last line with or without terminator, cue text of 1..n non-blank lines made of literal
+   characters, character references (&amp; &lt; &gt; &quot; &nbsp; &#d; &#xh;), b/i/u tags in angle syntax (short, long,
+   upper-case names) and in brace syntax (short and long), <font color=..> tags (#rrggbb, #rrggbbaa, named colour, either
+   case, double / single / no quotes), nested and adjacent at will, spanning lines or not, and closing tags that close
+   nothing (no open tag, or not the name of the innermost open tag) anywhere.
+   The four findings that were recorded here (short brace tags, stray / mismatched closers, the literal characters
+   backslash-n-backslash-r, CR kept through a non-translating stream) are repaired in the code; their witnesses are
+   `C10_repaired_witnesses`.  One finding is recorded (Findings/C10.v): the writer prints hour fields of four digits from
+   1000 h on, which the reader's pattern does not accept; `C10_writer_roundtrip_partial` carries that trigger.
+   Not covered by theorems: that ttconv's SRT writer only emits texts of the form `wprint cs` (compared on generated
+   documents by harness/c10.py, which parses each output into a `list wcue` and has Coq check `wprint` of it against
+   the output), and inputs outside the grammar (malformed / unconstrained streams: model = code only). *)
+From TT Require Import Base.Prelude Base.SrtTypes Gen.SrtTables Model.SrtReader Spec.SrtCueSpec Spec.SrtWriterOut
+  Proofs.C10.Time Proofs.C10.Brace Proofs.C10.Writer Proofs.C10.Witness.
 From Coq Require Import QArith.
 Local Open Scope Z_scope.
 
@@ -36,44 +39,58 @@ Theorem C10_exact_time : forall bh bm bs bms ws1 ws2 eh em es ems tail,
     Qeq (seconds_of (g_bh g) (g_bm g) (g_bs g) (g_bms g)) (printed_seconds bh bm bs bms) /\
     Qeq (seconds_of (g_eh g) (g_em g) (g_es g) (g_ems g)) (printed_seconds eh em es ems).
 Proof. exact exact_time. Qed.
+(* the same over the clocks of the grammar - every hour 00-99 and 000-999, minute and second 00-99, millisecond 000-999:
+   the value read is the clock's value, which is the millisecond total over 1000 *)
+Theorem C10_exact_time_grammar : forall k1 k2 ws1 ws2 tail, wf_clock k1 = true -> wf_clock k2 = true ->
+  ws1 <> [] -> forallb is_space ws1 = true -> ws2 <> [] -> forallb is_space ws2 = true ->
+  exists g, search_tc (print_clock k1 ++ ws1 ++ [45;45;62] ++ ws2 ++ print_clock k2 ++ tail) = Some g /\
+    seconds_of (g_bh g) (g_bm g) (g_bs g) (g_bms g) = clock_seconds k1 /\
+    seconds_of (g_eh g) (g_em g) (g_es g) (g_ems g) = clock_seconds k2 /\
+    Qeq (clock_seconds k1) (Qmake (total_ms k1) 1000) /\ Qeq (clock_seconds k2) (Qmake (total_ms k2) 1000).
+Proof. exact exact_time_grammar. Qed.
+(* "conversion to frame-based outputs lands on the intended frame": a time that is n frames at the rate fn/fd
+   multiplies out to exactly n *)
+Theorem C10_frames_exact : forall k (fn : Z) (fd : positive) n, total_ms k * fn = n * 1000 * Zpos fd ->
+  Qeq (Qmult (clock_seconds k) (Qmake fn fd)) (inject_Z n).
+Proof. exact frames_exact. Qed.
 
 (* round trip: one paragraph per cue, exact times, lines in order separated by line breaks, every character with
-   exactly the styles of the tags that enclose it *)
-Theorem C10_roundtrip_partial : forall f, wf_file f = true ->
-  trigger_brace_short f = false -> trigger_stray_end f = false -> trigger_backslash f = false ->
-  read_cues_file (print_file f) = Ok (cues f).
-Proof. exact roundtrip_partial. Qed.
-Theorem C10_roundtrip_stringio_partial : forall f, wf_file f = true -> f_crlf f = false ->
-  trigger_brace_short f = false -> trigger_stray_end f = false -> trigger_backslash f = false ->
-  read_cues (print_file f) = Ok (cues f).
-Proof. exact roundtrip_stringio_partial. Qed.
+   exactly the styles of the tags that enclose it - every file of the grammar, through either kind of stream *)
+Theorem C10_roundtrip : forall f, wf_file f = true -> read_cues_file (print_file f) = Ok (cues f).
+Proof. exact roundtrip_file_full. Qed.
+Theorem C10_roundtrip_stringio : forall f, wf_file f = true -> read_cues (print_file f) = Ok (cues f).
+Proof. exact roundtrip_stream_full. Qed.
 
 (* tag scoping at the level of one cue text: what _TextParser builds from the (rewritten) text flattens to the
    payload's characters in order, each with exactly the styles of its enclosing tags (`items_list`), for every
-   payload without short brace tags and stray closers *)
-Theorem C10_tags_scope_partial : forall p,
-  forallb markup_node p = true -> forallb wf_node p = true ->
+   payload of the grammar *)
+Theorem C10_tags_scope : forall p,
+  forallb wf_node p = true -> forallb (stray_ok None) p = true ->
   forallb (fun l => negb (all_ws l)) (payload_lines p) = true ->
-  has_sub [92;110;92;114] (print_nodes p) = false ->
-  exists kids, parse_text true (rewrite_text (print_nodes p)) = Ok kids /\ flat_list st0 kids = items_list st0 p.
-Proof. exact tags_scope_partial. Qed.
+  exists kids, parse_text (rewrite_text (print_nodes p)) = Ok kids /\ flat_list st0 kids = items_list st0 p.
+Proof. exact tags_scope. Qed.
 
-(* counters, blank-line runs, 2- or 3-digit hour fields, white space, tails and terminators are tolerated: two files
-   that agree on clock fields and payloads read the same *)
+(* counters, blank-line runs, 2- or 3-digit hour fields, white space, tails, terminators and the kind of stream are
+   tolerated: two files that agree on clock fields and payloads read the same, whichever way they are read *)
 Theorem C10_tolerates : forall f f',
-  wf_file f = true -> wf_file f' = true ->
-  trigger_brace_short f = false -> trigger_stray_end f = false -> trigger_backslash f = false ->
-  trigger_brace_short f' = false -> trigger_stray_end f' = false -> trigger_backslash f' = false ->
-  Forall2 same_content (f_cues f) (f_cues f') ->
-  read_cues_file (print_file f) = read_cues_file (print_file f') /\ read_cues_file (print_file f) = Ok (cues f).
-Proof. exact tolerates_partial. Qed.
+  wf_file f = true -> wf_file f' = true -> Forall2 same_content (f_cues f) (f_cues f') ->
+  read_cues_file (print_file f) = Ok (cues f) /\ read_cues (print_file f) = Ok (cues f) /\
+  read_cues_file (print_file f') = Ok (cues f) /\ read_cues (print_file f') = Ok (cues f).
+Proof. exact tolerates. Qed.
+
+(* reading the SRT writer's own output returns the cues that were written: every text of the form the writer emits
+   (any counters, times on millisecond multiples below 1000 h, payload lines non-blank, characters other than '<' '&'
+   '{', tags of the writer's repertoire properly nested) is read as exactly the cues it was printed from.
+   Full statement (without the trigger) refuted in Findings/C10.v. *)
+Theorem C10_writer_roundtrip_partial : forall cs, wwf cs = true -> trigger_hours_1000 cs = false ->
+  read_cues (wprint cs) = Ok (map wmeaning cs) /\ read_cues_file (wprint cs) = Ok (map wmeaning cs).
+Proof. exact writer_roundtrip. Qed.
 
 (* non-vacuity: a file meeting every hypothesis (leading blank lines, odd counters, a three-digit hour, tabs around the
-   arrow, a tail, nested and adjacent tags in all syntaxes over two lines, references, font colours, several blank lines
-   between cues, CR LF terminators), and what is read from it *)
-Example C10_example : wf_file f_example = true /\ trigger_brace_short f_example = false /\ trigger_stray_end f_example = false /\
-  trigger_backslash f_example = false /\
-  read_cues_file (print_file f_example) = Ok (cues f_example) /\
+   arrow, a tail, nested and adjacent tags in all syntaxes over two lines, closers that close nothing, references, font
+   colours, several blank lines between cues, CR LF terminators), and what is read from it *)
+Example C10_example : wf_file f_example = true /\
+  read_cues_file (print_file f_example) = Ok (cues f_example) /\ read_cues (print_file f_example) = Ok (cues f_example) /\
   cues f_example = [(Qmake 363599999 1000, Qmake 3602439 1,
                      [Ch 97 (mkSt true false false None); Ch 98 (mkSt true true false None); Brk; Ch 99 (mkSt true true false None);
                       Ch 100 (mkSt true false true None); Ch 101 (mkSt false false false (Some (255, 0, 128, 255)));
@@ -85,8 +102,24 @@ Proof. exact example_ok. Qed.
 Example C10_example_280 : read_cues (print_file (mkFile [] [mkCue [49] (mkClock 0 false 0 0 280) [32] [32] (mkClock 0 false 0 1 70) [] [NChar 120] [[]]] false true))
   = Ok [(Qmake 7 25, Qmake 107 100, [Ch 120 st0])].
 Proof. exact example_280. Qed.
+(* the witnesses of the four repaired findings ({b}x{/b};  a</b>c;  <b>x</i>y</b>;  C:\n\rx;  a CR LF b CR LF unread by
+   universal newlines) are files of the grammar and are read as written *)
+Example C10_repaired_witnesses : reads_ok f_brace /\ reads_ok f_stray /\ reads_ok f_mismatch /\ reads_ok f_backslash /\ reads_ok f_crlf2 /\
+  cues f_brace = [(Qmake 1 1, Qmake 5 2, [Ch 120 (mkSt true false false None)])] /\
+  cues f_mismatch = [(Qmake 1 1, Qmake 5 2, [Ch 120 (mkSt true false false None); Ch 121 (mkSt true false false None)])] /\
+  cues f_crlf2 = [(Qmake 1 1, Qmake 5 2, [Ch 97 st0; Brk; Ch 98 st0])].
+Proof. exact repaired_witnesses. Qed.
+(* the writer theorem's hypotheses are satisfiable: two cues as the writer prints them, and what is read *)
+Example C10_writer_example : wwf w_example = true /\ trigger_hours_1000 w_example = false /\
+  read_cues (wprint w_example) = Ok (map wmeaning w_example) /\
+  map wmeaning w_example =
+    [(Qmake 1 1, Qmake 5 2, [Ch 97 (mkSt true false false (Some (255, 0, 0, 255))); Ch 98 (mkSt true true false (Some (255, 0, 0, 255))); Brk;
+                              Ch 99 (mkSt false false true (Some (255, 0, 0, 255))); Ch 33 st0]);
+     (Qmake 359999999 1000, Qmake 360000001 1000, [Ch 120 st0; Brk; Ch 121 st0])].
+Proof. destruct writer_example as (A & B & _ & C & D). exact (conj A (conj B (conj C D))). Qed.
 
-Print Assumptions C10_exact_time.
-Print Assumptions C10_roundtrip_partial.  Print Assumptions C10_roundtrip_stringio_partial.
-Print Assumptions C10_tags_scope_partial.
+Print Assumptions C10_exact_time.  Print Assumptions C10_exact_time_grammar.  Print Assumptions C10_frames_exact.
+Print Assumptions C10_roundtrip.  Print Assumptions C10_roundtrip_stringio.
+Print Assumptions C10_tags_scope.
 Print Assumptions C10_tolerates.
+Print Assumptions C10_writer_roundtrip_partial.
